@@ -155,7 +155,7 @@ def int_old_body():
     back = json_to_distribution(distribution_to_json(old))
     sx.reach("checked")
     return sx.all_of([new.low == old.low, new.high == old.high, new.step == old.step, new.log == (kind == "loguniform"),
-                      back.low == old.low, back.high == old.high, type(back) is type(old)])
+                      back.low == old.low, back.high == old.high, type(back) is type(old), back.step == old.step, P(back == old)])
 
 
 # ------------------------------------------------------------------------------------------ Float without step
